@@ -63,6 +63,7 @@ type root struct {
 }
 
 type FnRun struct {
+	curTypeArgs    []types.Type // type arguments of the generic callee whose contract is being applied (typearg(i))
 	root           *root
 	e              *Engine
 	fn             *ssa.Function
